@@ -250,7 +250,7 @@ func (s *scen) Key() string {
 
 func configs() []Config {
 	var out []Config
-	for _, t := range []float64{0, 0.5, 1, 2, 3, 5, 10, 100} {
+	for _, t := range []float64{0, 0.5, 1, 2, 3, 3.5, 5, 5.5, 10, 11.5, 100} { // fractional thresholds: truncation and rounding differ
 		for _, p := range []uint32{1, 2, 5, 10} {
 			for _, cf := range []uint32{0, 2, 3, 5, 10} {
 				out = append(out, Config{t, p, cf})
